@@ -2,7 +2,7 @@
 
 Twin objects driven through wrappers at the Simulation API; compared on the observable snapshot
 (vp/snapshot.py) and on behavioural continuation."""
-from ..common import guarded, rng_for, h64, make_riscv, M32
+from ..common import guarded, rng_for, h64, make_riscv, M32, with_alarm, AlarmTimeout
 from ..snapshot import riscv_snapshot, toy_snapshot, diff_names, INSPECT_RISCV, INSPECT_TOY, call_inspection, call_toy_inspection
 from ..gen import progs as G
 from ..gen import asm_rv as A
@@ -20,7 +20,7 @@ ASSUMPTIONS = {
     "C16": ["inspection functions = the list in vp/snapshot.py (register, data-memory, instruction, cache tables, cache statistics, visualisation update lists, performance-metric text, output, exit code, done, has-instructions)"],
 }
 REQUIRED = {
-    "C13": ["extra_steps_after_done", "extra_runs_after_done", "step_returns_checked", "run_vs_step_twins", "empty_programs", "reload_twins", "failed_loads_in_history", "continuation_steps", "toy_cases", "five_cases", "single_cases", "exit_ecall_terminals", "jump_outside_terminals"],
+    "C13": ["extra_steps_after_done", "extra_runs_after_done", "step_returns_checked", "run_vs_step_twins", "empty_programs", "reload_twins", "failed_loads_in_history", "continuation_steps", "toy_cases", "five_cases", "single_cases", "exit_ecall_terminals", "jump_outside_terminals", "final_load_fails_twins", "interleaved_loads", "loads_after_start"],
     "C16": ["inspection_calls", "snapshots_compared", "blind_twin_joins", "cache_misses_after_burst", "toy_half_cycle_bursts", "five_cases", "single_cases", "toy_cases"],
 }
 
@@ -98,7 +98,7 @@ def run_life_case(case, res):
     # ---- reload == fresh load
     fresh = make_sim(kind, cfg)
     e0 = safe_load(fresh, text)
-    if e0 is not None:
+    if e0 is not None and not case.get("final_bad"):
         res.violation("C13", "final-load-failed", "well-formed program failed to load: %r" % (e0,), case)
         return
     hist = make_sim(kind, cfg)
@@ -108,6 +108,30 @@ def run_life_case(case, res):
             res.count("failed_loads_in_history")
             failed_here += 1
     e1 = safe_load(hist, text)
+    if case.get("final_bad"):
+        # the final load itself fails: a failed load, too, must leave the same state as the same failed load into a
+        # fresh simulation (whatever an earlier load put there is gone)
+        res.count("final_load_fails_twins")
+        if type(e0) is not type(e1):
+            res.violation("C13", "reload-differs", "the malformed text raises %r in a fresh simulation but %r after the load history" % (e0, e1), case)
+            return
+        a, b = snap(kind, fresh), snap(kind, hist)
+        if a != b:
+            res.violation("C13", "reload-differs", "after a FAILED final load the snapshot differs from the same failed load into a fresh simulation in %s" % diff_names(a, b), case)
+            return
+        # ... and behave the same from there on
+        for _ in range(12):
+            try:
+                r1, r2 = fresh.step(), hist.step()
+            except Exception:
+                break
+            a, b = snap(kind, fresh), snap(kind, hist)
+            if r1 is not r2 or a != b:
+                res.violation("C13", "reload-continuation-differs", "stepping after a failed final load differs from the fresh twin in %s" % diff_names(a, b), case)
+                return
+        if failed_here or case["history"]:
+            res.nontrivial(h64(case))
+        return
     if e1 is not None:
         res.violation("C13", "reload-failed", "program loads into a fresh simulation but not after the load history %r: %r" % (case["history"], e1), case)
         return
@@ -156,7 +180,10 @@ def run_life_case(case, res):
         return  # bound hit or fault: no terminal state to examine
     # ---- run() == step loop
     try:
-        runner.run()
+        with_alarm(20, runner.run)
+    except AlarmTimeout:
+        res.violation("C13", "run-vs-step", "run() did not return within 20 s although the step loop finished after %d steps" % n, case)
+        return
     except Exception as e:
         res.violation("C13", "run-vs-step", "run() raised %r where the step loop completed" % (e,), case)
         return
@@ -195,6 +222,90 @@ def run_life_case(case, res):
         res.nontrivial(h64(case))
 
 
+def run_interleave_case(case, res):
+    """arbitrary interleaving of load / step / run calls on ONE simulation (also re-loading after it has started):
+    step() must return `not is_done()` after every call; from any point a twin finishing with run() and a twin
+    finishing with a step loop must end in the same snapshot; once done, done is stable."""
+    import copy
+
+    kind, cfg = case["sim"], case["cfg"]
+    res.count({"toy": "toy_cases", "five": "five_cases", "single": "single_cases"}[kind])
+    sim = make_sim(kind, cfg)
+    texts = case["texts"]
+    for i, (op, arg) in enumerate(case["calls"]):
+        where = "call #%d %s" % (i, op)
+        try:
+            if op == "load":
+                safe_load(sim, texts[arg])
+                res.count("interleaved_loads")
+                if sim.has_started:
+                    res.count("loads_after_start")
+            elif op == "step":
+                for _ in range(arg):
+                    r = sim.step()
+                    res.count("step_returns_checked")
+                    if r is not (not sim.is_done()):
+                        res.violation("C13", "step-return", "%s: step() returned %r while is_done() is %r (history: %s)" % (where, r, sim.is_done(), [c[0] for c in case["calls"][: i + 1]]), case)
+                        return
+            elif op == "fork":
+                # twin A finishes with run(), twin B with a step loop
+                a_, b_ = copy.deepcopy(sim), copy.deepcopy(sim)
+                k = 0
+                while not b_.is_done() and k < 600:
+                    b_.step()
+                    k += 1
+                if not b_.is_done():
+                    continue  # does not terminate within the bound: run() is not called
+                try:
+                    with_alarm(20, a_.run)
+                except AlarmTimeout:
+                    res.violation("C13", "run-vs-step", "%s: run() did not return although the step loop finished after %d steps" % (where, k), case)
+                    return
+                res.count("run_vs_step_twins")
+                sa, sb = snap(kind, a_), snap(kind, b_)
+                if sa != sb:
+                    res.violation("C13", "run-vs-step", "%s: run() and the step loop end in different snapshots: %s" % (where, diff_names(sa, sb)), case)
+                    return
+                base = snap(kind, b_)
+                for _ in range(2):
+                    r = b_.step()
+                    b_.run()
+                    res.count("extra_steps_after_done")
+                    res.count("extra_runs_after_done")
+                    now = snap(kind, b_)
+                    if r is not False or now != base:
+                        res.violation("C13", "done-not-stable", "%s: after done step() returned %r / changed %s" % (where, r, diff_names(base, now)), case)
+                        return
+        except Exception:
+            # a faulting program: nothing is claimed about a simulation that raised
+            return
+    res.nontrivial(h64(case))
+
+
+def gen_interleave_case(rng):
+    kind = rng.choice(["single", "five", "five", "toy"])
+    if kind == "toy":
+        from . import toy as T
+
+        texts = [T.gen_source(rng)["text"] for _ in range(3)] + ["", ".data\nv: .word 3", rng.choice(BAD_TEXTS_TOY)]
+        cfg = {}
+    else:
+        texts = [asm_text(gen_rv_program(rng)[0]) for _ in range(3)] + ["", ".data\nd: .word 1, 2", rng.choice(BAD_TEXTS_RV), ".data\nd0: .word 7\n.text\nlw x1, d0\nbeq x0, x0, nowhere"]
+        cfg = {"hz": rng.random() < 0.8, "dcache": rand_cache(rng), "icache": rand_cache(rng, data=False)}
+    calls = [("load", rng.randrange(3))]
+    for _ in range(rng.randint(2, 8)):
+        k = rng.random()
+        if k < 0.45:
+            calls.append(("step", rng.choice([1, 1, 2, 3, 7])))
+        elif k < 0.75:
+            calls.append(("load", rng.randrange(len(texts))))
+        else:
+            calls.append(("fork", 0))
+    calls.append(("step", 2))
+    calls.append(("fork", 0))
+    return {"kind": "interleave", "sim": kind, "cfg": cfg, "texts": texts, "calls": calls}
+
+
 def gen_life_case(rng):
     kind = rng.choice(["single", "five", "five", "toy"])
     if kind == "toy":
@@ -208,6 +319,8 @@ def gen_life_case(rng):
             terminal = "empty"
         history = [rng.choice(BAD_TEXTS_TOY) if rng.random() < 0.5 else T.gen_source(rng)["text"] for _ in range(rng.choice([0, 1, 2, 3, 5]))]
         # TOY programs may loop: bound the steps; after_done only reached when done
+        if rng.random() < 0.15:
+            return {"kind": "life", "sim": "toy", "cfg": {}, "text": rng.choice(BAD_TEXTS_TOY), "regs": {}, "terminal": "bad", "final_bad": True, "history": history or [T.gen_source(rng)["text"]], "max_steps": 10, "after_done": []}
         return {"kind": "life", "sim": "toy", "cfg": {}, "text": text, "regs": {}, "terminal": terminal, "history": history, "max_steps": 300, "after_done": [rng.choice(["step", "run", "first", "second", "single"]) for _ in range(4)]}
     prog, regs, terminal = gen_rv_program(rng)
     cfg = {"hz": rng.random() < 0.8, "dcache": rand_cache(rng), "icache": rand_cache(rng, data=False)}
@@ -218,6 +331,8 @@ def gen_life_case(rng):
     history = []
     for _ in range(rng.choice([0, 1, 2, 3, 5])):
         history.append(rng.choice(BAD_TEXTS_RV) if rng.random() < 0.5 else asm_text(gen_rv_program(rng)[0]))
+    if rng.random() < 0.15:
+        return {"kind": "life", "sim": kind, "cfg": cfg, "text": rng.choice(BAD_TEXTS_RV), "regs": {}, "terminal": "bad", "final_bad": True, "history": history or [text], "max_steps": 10, "after_done": []}
     return {"kind": "life", "sim": kind, "cfg": cfg, "text": text, "regs": regs, "terminal": terminal, "history": history, "max_steps": 700, "after_done": [rng.choice(["step", "run", "step"]) for _ in range(4)]}
 
 
@@ -346,6 +461,8 @@ def gen_pure_case(rng):
 def run_case(prop, case, res):
     if case["kind"] == "life":
         run_life_case(case, res)
+    elif case["kind"] == "interleave":
+        run_interleave_case(case, res)
     else:
         run_pure_case(case, res)
 
@@ -359,7 +476,7 @@ def run_shard(spec, res):
             res.evaluations += 1
         return
     for it in range(spec["n"]):
-        case = gen_life_case(rng) if spec["kind"] == "life" else gen_pure_case(rng)
+        case = (gen_interleave_case(rng) if rng.random() < 0.3 else gen_life_case(rng)) if spec["kind"] == "life" else gen_pure_case(rng)
         guarded(run_case, prop, case, res)
         res.evaluations += 1
         if it < 1:
